@@ -3,6 +3,7 @@ package checks
 import (
 	"encoding/json"
 	"fmt"
+	"math"
 	"math/rand/v2"
 	"reflect"
 	"sort"
@@ -16,6 +17,15 @@ import (
 )
 
 // ---------- Slice model ----------
+
+// extreme returns v, or now and then an integer at the edge of the range: indices and counts
+// such as math.MaxInt ("to the end") must be clamped or refused like any other, never overflow.
+func extreme(rng *rand.Rand, v int) int {
+	if rng.IntN(8) != 0 {
+		return v
+	}
+	return []int{math.MaxInt, math.MaxInt - 1, math.MaxInt/2 + 1, math.MinInt, math.MinInt + 1, 1 << 40, -(1 << 40)}[rng.IntN(7)]
+}
 
 const sentinel = -777777
 
@@ -149,7 +159,7 @@ func seqSlice(rng *rand.Rand, nops int) (key, msg string, trace []string) {
 				}
 			}
 		case 6:
-			idx := rng.IntN(len(model)+4) - 2
+			idx := extreme(rng, rng.IntN(len(model)+4)-2)
 			op = fmt.Sprintf("Get(%d)", idx)
 			var v int
 			var err error
@@ -162,7 +172,7 @@ func seqSlice(rng *rand.Rand, nops int) (key, msg string, trace []string) {
 				k, m = "slice-return-mismatch:Get", fmt.Sprintf("%s returned (%d,%v), want %d", op, v, err, model[idx])
 			}
 		case 7:
-			idx := rng.IntN(len(model)+4) - 2
+			idx := extreme(rng, rng.IntN(len(model)+4)-2)
 			val := next
 			next++
 			op = fmt.Sprintf("Set(%d,%d)", idx, val)
@@ -180,8 +190,8 @@ func seqSlice(rng *rand.Rand, nops int) (key, msg string, trace []string) {
 				}
 			}
 		case 8:
-			a := rng.IntN(len(model)+4) - 2
-			b := rng.IntN(len(model)+4) - 2
+			a := extreme(rng, rng.IntN(len(model)+4)-2)
+			b := extreme(rng, rng.IntN(len(model)+4)-2)
 			op = fmt.Sprintf("Slice(%d,%d)", a, b)
 			var v []int
 			var err error
@@ -199,8 +209,8 @@ func seqSlice(rng *rand.Rand, nops int) (key, msg string, trace []string) {
 				}
 			}
 		case 9, 10, 11:
-			start := rng.IntN(len(model)+4) - 2
-			del := rng.IntN(len(model)+5) - 2
+			start := extreme(rng, rng.IntN(len(model)+4)-2)
+			del := extreme(rng, rng.IntN(len(model)+5)-2)
 			n := rng.IntN(4)
 			view, full := fresh(n)
 			vals := append([]int(nil), view...)
@@ -301,6 +311,9 @@ func seqSlice(rng *rand.Rand, nops int) (key, msg string, trace []string) {
 			pos := rng.IntN(len(model))
 			target := model[pos]
 			del := rng.IntN(3)
+			if x := extreme(rng, del); x > 0 {
+				del = x // "delete to the end" idioms: a count far beyond the length
+			}
 			n := rng.IntN(3)
 			view, full := fresh(n)
 			vals := append([]int(nil), view...)
